@@ -187,6 +187,7 @@ func Main() {
 		byzVotes(r)
 		voteRounds(r)
 		syncingFlood(r)
+		voteFlood(r)
 		lap("byzVotes")
 	}
 	if only == "" || only == "proc" {
